@@ -15,9 +15,10 @@ type domInfo struct{}
 // Canonical atoms: LT(x,y) for x<y; EQ(x,y) with sorted operands; any other
 // boolean term as itself.
 type Cond struct {
-	Atom *Term
-	Pol  bool
-	V    ssa.Value
+	Atom   *Term
+	Pol    bool
+	V      ssa.Value
+	Branch bool // direction in which V was taken (Pol = polarity of Atom after canonicalisation)
 }
 
 func (c Cond) String() string {
@@ -69,7 +70,7 @@ func (p *Program) condOf(v ssa.Value, pol bool) Cond {
 	if !pol {
 		q = !q
 	}
-	return Cond{Atom: a, Pol: q, V: v}
+	return Cond{Atom: a, Pol: q, V: v, Branch: pol}
 }
 
 func blockIf(b *ssa.BasicBlock) *ssa.If {
@@ -533,6 +534,9 @@ func isCallToMethod(c *ssa.CallCommon, pkgPath, typeName, name string) bool {
 }
 
 func namedIs(t types.Type, pkgPath, typeName string) bool {
+	if t == nil {
+		return false
+	}
 	t = deref(t)
 	n, ok := t.(*types.Named)
 	if !ok {
